@@ -913,10 +913,13 @@ class SpecListAddSpec(Contract):
     one (same func and group) is already there."""
 
     qualnames = [CBQ + "CallbackSpecList.add#spec"]
-    params = [("self", "CallbackSpecList"), ("callbacks", "CallbackSpec"), ("group", "CallbackGroup")]
+    params = [("self", "CallbackSpecList"), ("callbacks", "CallbackSpec"), ("group", "CallbackGroup"), ("**kwargs", "dict[str,Val]")]
     returns = "CallbackSpecList"
     modifies = ["list.arr", "list.len", "set.has"]
-    trusted = True  # body: same code path as add/_add (proved for names); the isinstance branch is assumed
+    properties = ["C08", "C09", "C15"]
+
+    def pre(self, s, a):
+        return {"list-wf": spec_list_wf(s, a.self.e), "spec-valid": valid_obj(s, a.callbacks.e)}
 
     def post(self, s0, s, a, r):
         specs, sp = a.self.e, a.callbacks.e
@@ -939,8 +942,30 @@ class SpecListAddSpec(Contract):
                 patterns=[z3.Select(s["set.has"], o)]),
         }
 
-    def assumptions(self):
-        return ["CallbackSpecList.add(<CallbackSpec>, group): assumed (the isinstance branch of _add)"]
+
+
+@register
+class SpecListAddOneSpec(Contract):
+    """CallbackSpecList._add(<a CallbackSpec>, group) - the isinstance branch of the real body: the spec object itself
+    is appended unless an equal one (same func and group, CallbackSpec.__eq__) is already in the list."""
+
+    qualnames = [CBQ + "CallbackSpecList._add#spec"]
+    params = [("self", "CallbackSpecList"), ("func", "CallbackSpec"), ("group", "CallbackGroup"), ("**kwargs", "dict[str,Val]")]
+    returns = "Val"
+    modifies = ["list.arr", "list.len", "set.has"]
+    properties = ["C08", "C09", "C15"]
+
+    def pre(self, s, a):
+        return {"list-wf": spec_list_wf(s, a.self.e), "spec-valid": valid_obj(s, a.func.e)}
+
+    def post(self, s0, s, a, r):
+        class _A:  # the same clauses as add#spec, minus the returned list
+            pass
+        b = _A()
+        b.self, b.callbacks = a.self, a.func
+        f = SpecListAddSpec.post(None, s0, s, b, O(a.self.e, "CallbackSpecList"))
+        f.pop("returns-self")
+        return f
 
 
 @model
@@ -951,6 +976,16 @@ def speclist_add_dispatch(ex, path, recv, ca, node):
 
 
 CLASSES["CallbackSpecList"].methods["add"] = speclist_add_dispatch
+
+
+@model
+def speclist_add_one_dispatch(ex, path, recv, ca, node):
+    a0 = ca.pos[0] if ca.pos else None
+    q = CBQ + ("CallbackSpecList._add#spec" if isinstance(a0, O) and a0.cls == "CallbackSpec" else "CallbackSpecList._add")
+    return ex.apply_contract(path, CONTRACTS[q], recv, ca, "CallbackSpecList._add", node)
+
+
+CLASSES["CallbackSpecList"].methods["_add"] = speclist_add_one_dispatch
 CONTRACTS.pop(TRQ + "_copy_with_args", None)
 
 
